@@ -6,6 +6,8 @@ import (
 	"encoding/json"
 	"errors"
 	"fmt"
+	"os"
+	"runtime/debug"
 	"strings"
 
 	"github.com/btcsuite/btcutil/base58"
@@ -393,6 +395,10 @@ func Fence(f func() Unpacked) (u Unpacked) {
 	defer func() {
 		if r := recover(); r != nil {
 			u = Unpacked{Out: "panic", Err: fmt.Sprint(r)}
+
+			if os.Getenv("VERIF_STACK") != "" {
+				fmt.Fprintf(os.Stderr, "panic: %v\n%s\n", r, debug.Stack())
+			}
 		}
 	}()
 
